@@ -6,7 +6,7 @@ seeded/<id>/meta.json ('final_verification') and seeded/MATRIX.md."""
 import json, os, subprocess, sys, glob, shutil, time
 
 VERIF = os.path.dirname(os.path.dirname(os.path.abspath(__file__)))
-WT = "/tmp/seedchk_wt"
+WT = os.environ.get("SEEDCHK_WT", "/tmp/seedchk_wt")
 PY = "/venv/bin/python"
 
 
